@@ -10,7 +10,7 @@ URIs, swap them, omit them, add '' (also '' -> ''); every selector form (ns|E *|
 """
 import random
 
-from vlib import inplace, cases, sels, shrink, trees
+from vlib import inplace, cases, monitors, sels, shrink, trees
 from vlib.runner import sig
 from vlib.trees import E, T, NS_MATHML, NS_SVG, NS_XHTML, NS_XLINK
 
@@ -229,6 +229,29 @@ def run_unit(u):
                 bump('not_namespace_aware')
                 continue
             cfg = _cfg(pf, apf, names, anames, bool(nsmap) and '' in nsmap)
+            # a custom alias selects what its definition selects - also when the definition has type-less compounds, the map has a
+            # default namespace and the outer compound names a namespace itself (`X:--m` == `X:is(definition)`; the right-hand side is
+            # what the reference sweep above judges)
+            if isinstance(nsmap, dict) and rng.random() < .5:
+                prefixes = [k for k in nsmap if k] or ['nope']
+                defs = ['.x', '[at]', ':not(.x)', '.x, [title]', '*|*.x', 'a.x, .x', ':not(a)', '[href], .x', ':is(.x)', '.x > *', '* > .x']
+                for _c in range(3):
+                    d_ = rng.choice(defs)
+                    outer = rng.choice(['*|*', '*|*', '%s|*' % rng.choice(prefixes), '%s|a' % rng.choice(prefixes), '|b', '', 'a', '*', ':not(|zz)'])
+                    tgt_ = case.target_obj
+                    s1, r1 = monitors.guarded_call(sv.select, outer + ':--m', tgt_, case.ns_arg(), custom={':--m': d_})
+                    s2, r2 = monitors.guarded_call(sv.select, outer + ':is(' + d_ + ')', tgt_, case.ns_arg())
+                    bump('custom_alias_laws')
+                    res['evals'] += 1
+                    if s1 == 'ok' and s2 == 'ok' and r1:
+                        bump('custom_alias_nontrivial')
+                    if (s1, [id(x) for x in r1] if s1 == 'ok' else type(r1).__name__) != (s2, [id(x) for x in r2] if s2 == 'ok' else type(r2).__name__):
+                        bump('VIOL')
+                        if len(res['viol']) < 8:
+                            what = 'custom alias: select(%r, namespaces=%r, custom={":--m": %r}) gives %s but %r gives %s on %s' % (
+                                outer + ':--m', nsmap, d_, cases.labels(r1) if s1 == 'ok' else r1, outer + ':is(' + d_ + ')',
+                                cases.labels(r2) if s2 == 'ok' else r2, trees.describe(case.soup, 200))
+                            res['viol'].append(case.witness(None, outer + ':--m', what, **{'class': sig('custom-alias', how, outer[:3], d_), 'custom_alias': [outer, d_]}))
             # one dict object edited in place between consecutive calls, nothing else compiled in between (vlib/inplace.py)
             if isinstance(nsmap, dict) and nsmap and rng.random() < .6:
                 pool = [NS1, NS2, NS3, D1] if how != 'html5lib' else [NS_SVG, NS_MATHML, NS_XHTML, NS_XLINK]
@@ -288,6 +311,20 @@ def replay(w):
     import soupsieve as sv
     tops = cases.rebuild(w)
     case = cases.Case(tops, w['how'], w['target'], nsmap=w.get('nsmap'), ext={'pc': pc_ext})
+    if w.get('custom_alias'):
+        outer, d_ = w['custom_alias']
+        r1 = sv.select(outer + ':--m', case.target_obj, w.get('nsmap'), custom={':--m': d_})
+        r2 = sv.select(outer + ':is(' + d_ + ')', case.target_obj, w.get('nsmap'))
+        return None if [id(x) for x in r1] == [id(x) for x in r2] else dict(w, status_now='alias %s vs spelled-out %s' % (cases.labels(r1), cases.labels(r2)))
+    if w.get('inplace'):
+        from vlib import sels as _s
+        import random as _r
+        r = inplace.sequence(sv, _r.Random(0), case, w['ast'], w['selector'], w['inplace'][0], [NS1, NS2, NS3, D1], steps=6)
+        for seed in range(1, 40):
+            if not r.get('ok'):
+                break
+            r = inplace.sequence(sv, _r.Random(seed), case, w['ast'], w['selector'], w['inplace'][0], [NS1, NS2, NS3, D1], steps=6)
+        return None if r.get('ok') else dict(w, status_now=r['what'])
     st, info = cases.compare_select(sv, case, w['ast'], w.get('selector'), match_law=True)
     if st in ('agree', 'unspec'):
         return None
